@@ -200,4 +200,225 @@ theorem run_preserves {w : World σ R} (h : EvalPhase w) (sched : List Nat) :
     rw [r1] at e2
     exact ⟨by rw [e2, e1], fun hne => n2 (n1 hne)⟩
 
+/-! ## Guard accounting (every guard is released) -/
+
+theorem dropReads_readers (held : List Nat) (locks : Nat → LockSt) (k : Nat) :
+    (dropReads locks held k).readers = (locks k).readers - held.count k := by
+  induction held generalizing locks with
+  | nil => simp [dropReads]
+  | cons l held ih =>
+    simp only [dropReads]
+    rw [ih]
+    simp only [setLock]
+    by_cases hk : k = l
+    · subst hk
+      simp only [if_true, List.count_cons_self]
+      omega
+    · have hlk : (l == k) = false := by simpa using fun h => hk h.symm
+      simp only [hk, if_false, List.count_cons, hlk]
+      simp
+
+theorem sum_map_set {α : Type} (f : α → Nat) (ts : List α) (i : Nat) (t t' : α) (h : ts[i]? = some t) :
+    ((ts.set i t').map f).sum + f t = (ts.map f).sum + f t' := by
+  induction ts generalizing i with
+  | nil => simp at h
+  | cons x xs ih =>
+    cases i with
+    | zero =>
+      simp only [List.getElem?_cons_zero, Option.some.injEq] at h
+      subst h
+      simp only [List.set_cons_zero, List.map_cons, List.sum_cons]
+      omega
+    | succ j =>
+      simp only [List.getElem?_cons_succ] at h
+      have := ih j h
+      simp only [List.set_cons_succ, List.map_cons, List.sum_cons]
+      omega
+
+theorem sum_map_eq_zero {α : Type} (f : α → Nat) (ts : List α) (h : ∀ t ∈ ts, f t = 0) : (ts.map f).sum = 0 := by
+  induction ts with
+  | nil => rfl
+  | cons x xs ih =>
+    simp only [List.map_cons, List.sum_cons]
+    rw [h x List.mem_cons_self, ih (fun t ht => h t (List.mem_cons_of_mem _ ht))]
+
+theorem le_sum_map {α : Type} (f : α → Nat) (ts : List α) (i : Nat) (t : α) (h : ts[i]? = some t) :
+    f t ≤ (ts.map f).sum := by
+  induction ts generalizing i with
+  | nil => simp at h
+  | cons x xs ih =>
+    cases i with
+    | zero =>
+      simp only [List.getElem?_cons_zero, Option.some.injEq] at h
+      subst h
+      simp only [List.map_cons, List.sum_cons]
+      omega
+    | succ j =>
+      simp only [List.getElem?_cons_succ] at h
+      have := ih j h
+      simp only [List.map_cons, List.sum_cons]
+      omega
+
+/-- What a step of the evaluation phase does to the guards: the reader counts move exactly as the
+guards of the stepping thread do; the guards the thread is going to end with are unchanged; a call
+that ends holds nothing. -/
+theorem step_guards {w : World σ R} (h : EvalPhase w) {i : Nat} {t : Thread σ R}
+    (ht : w.threads[i]? = some t) {a : Act σ R} {rest : List (Act σ R)} (hd : t.todo = a :: rest)
+    (hge : ∀ k, t.heldR.count k ≤ (w.locks k).readers) :
+    ∃ w' t', stepThread w i = .done w' ∧ w'.threads = w.threads.set i t' ∧
+      (∀ k, (w'.locks k).readers + t.heldR.count k = (w.locks k).readers + t'.heldR.count k) ∧
+      finalHeld t'.heldR t'.todo = finalHeld t.heldR t.todo ∧
+      (t'.ending ≠ .running → t'.heldR = []) := by
+  have hm : t ∈ w.threads := List.mem_of_getElem? ht
+  have hsafe : a.evalSafe = true := h.safe t hm a (by rw [hd]; exact List.mem_cons_self)
+  have hW : t.heldW = [] := h.noWriteGuard t hm
+  have hrun : t.ending = .running := by
+    cases he : t.ending with
+    | running => rfl
+    | panicked => have := h.ended t hm (by rw [he]; exact fun x => by cases x); rw [hd] at this; cases this
+    | lockError => have := h.ended t hm (by rw [he]; exact fun x => by cases x); rw [hd] at this; cases this
+  cases a with
+  | acqRead l =>
+    have hc := h.clean l
+    refine ⟨{ w with locks := setLock w.locks l { w.locks l with readers := (w.locks l).readers + 1 }
+                     threads := w.threads.set i { t with todo := rest, heldR := l :: t.heldR } },
+      { t with todo := rest, heldR := l :: t.heldR }, ?_, rfl, ?_, ?_, ?_⟩
+    · simp [stepThread, ht, hd, hc.1, hc.2]
+    · intro k
+      simp only [setLock]
+      by_cases hk : k = l
+      · subst hk; simp only [if_true, List.count_cons_self]; omega
+      · have hlk : (l == k) = false := by simpa using fun h => hk h.symm
+        simp [hk, List.count_cons, hlk]
+    · rw [hd]; simp [finalHeld]
+    · intro hne; exact absurd hrun hne
+  | relRead l =>
+    by_cases hl : l ∈ t.heldR
+    · refine ⟨{ w with locks := setLock w.locks l { w.locks l with readers := (w.locks l).readers - 1 }
+                       threads := w.threads.set i { t with todo := rest, heldR := t.heldR.erase l } },
+        { t with todo := rest, heldR := t.heldR.erase l }, ?_, rfl, ?_, ?_, ?_⟩
+      · simp [stepThread, ht, hd, hl]
+      · intro k
+        simp only [setLock]
+        by_cases hk : k = l
+        · subst hk
+          have hpos : 0 < t.heldR.count k := List.count_pos_iff.mpr hl
+          have := hge k
+          simp only [if_true, List.count_erase_self]
+          omega
+        · simp [hk]
+      · rw [hd]; simp [finalHeld]
+      · intro hne; exact absurd hrun hne
+    · refine ⟨{ w with threads := w.threads.set i { t with todo := rest } }, { t with todo := rest },
+        ?_, rfl, fun _ => rfl, ?_, ?_⟩
+      · simp [stepThread, ht, hd, hl]
+      · rw [hd]; simp [finalHeld, List.erase_of_not_mem hl]
+      · intro hne; exact absurd hrun hne
+  | acqWrite l => simp [Act.evalSafe] at hsafe
+  | relWrite l => simp [Act.evalSafe] at hsafe
+  | compute f =>
+    refine ⟨{ w with threads := w.threads.set i { t with todo := rest, st := f w.reg t.st } },
+      { t with todo := rest, st := f w.reg t.st }, ?_, rfl, fun _ => rfl, ?_, ?_⟩
+    · simp [stepThread, ht, hd]
+    · rw [hd]; simp [finalHeld]
+    · intro hne; exact absurd hrun hne
+  | panic =>
+    refine ⟨unwind w i t .panicked, { t with todo := [], heldR := [], heldW := [], ending := .panicked },
+      ?_, rfl, ?_, ?_, fun _ => rfl⟩
+    · simp [stepThread, ht, hd]
+    · intro k
+      have := hge k
+      simp only [unwind, hW, dropWrites, dropReads_readers, List.count_nil]
+      omega
+    · rw [hd]; simp [finalHeld]
+
+/-- a program that ends with nothing held still does so when a release is appended -/
+theorem finalHeld_append_rel (p : List (Act σ R)) (h : List Nat) (x : Nat) (hp : finalHeld h p = []) :
+    finalHeld h (p ++ [.relRead x]) = [] := by
+  induction p generalizing h with
+  | nil =>
+    simp only [finalHeld] at hp
+    subst hp
+    simp [finalHeld]
+  | cons a rest ih =>
+    cases a with
+    | acqRead l => exact ih (l :: h) (by simpa [finalHeld] using hp)
+    | relRead l => exact ih (h.erase l) (by simpa [finalHeld] using hp)
+    | acqWrite l => exact ih h (by simpa [finalHeld] using hp)
+    | relWrite l => exact ih h (by simpa [finalHeld] using hp)
+    | compute f => exact ih h (by simpa [finalHeld] using hp)
+    | panic => simp [finalHeld]
+
+/-- Frame: a program that releases what it takes (and possibly guards it never took: a no-op), run
+under one more guard `x` taken before it and released after it, ends with nothing held. -/
+theorem finalHeld_wrapped (p : List (Act σ R)) (h : List Nat) (x : Nat) (hp : finalHeld h p = []) :
+    finalHeld (h ++ [x]) (p ++ [.relRead x]) = [] := by
+  induction p generalizing h with
+  | nil =>
+    simp only [finalHeld] at hp
+    subst hp
+    simp [finalHeld]
+  | cons a rest ih =>
+    cases a with
+    | acqRead l => exact ih (l :: h) (by simpa [finalHeld] using hp)
+    | relRead l =>
+      simp only [finalHeld] at hp
+      simp only [List.cons_append, finalHeld]
+      by_cases hl : l ∈ h
+      · rw [List.erase_append_left _ hl]
+        exact ih (h.erase l) hp
+      · rw [List.erase_append_right _ hl]
+        rw [List.erase_of_not_mem hl] at hp
+        by_cases hx : l = x
+        · subst hx
+          simp only [List.erase_cons_head, List.append_nil]
+          exact finalHeld_append_rel rest h l hp
+        · have : [x].erase l = [x] := List.erase_of_not_mem (by simpa using hx)
+          rw [this]
+          exact ih h hp
+    | acqWrite l => exact ih h (by simpa [finalHeld] using hp)
+    | relWrite l => exact ih h (by simpa [finalHeld] using hp)
+    | compute f => exact ih h (by simpa [finalHeld] using hp)
+    | panic => simp [finalHeld]
+
+theorem accounted_applyStep {w : World σ R} (h : EvalPhase w) (ha : Accounted w) (i : Nat) :
+    Accounted (applyStep w i) := by
+  unfold applyStep
+  cases ht : w.threads[i]? with
+  | none => simp [stepThread, ht]; exact ha
+  | some t =>
+    cases hd : t.todo with
+    | nil => simp [stepThread, ht, hd]; exact ha
+    | cons a rest =>
+      have hge : ∀ k, t.heldR.count k ≤ (w.locks k).readers := by
+        intro k
+        rw [ha.readers k]
+        exact le_sum_map (fun t => t.heldR.count k) w.threads i t ht
+      obtain ⟨w', t', hs, hth, hr, hf, he⟩ := step_guards h ht hd hge
+      rw [hs]
+      refine ⟨?_, ?_, ?_⟩
+      · intro k
+        have h1 := hr k
+        have h2 := sum_map_set (fun t => t.heldR.count k) w.threads i t t' ht
+        have h3 := ha.readers k
+        simp only [heldReads] at h3 ⊢
+        rw [hth]
+        omega
+      · intro u hu hne
+        rw [hth] at hu
+        rcases List.mem_or_eq_of_mem_set hu with hm | rfl
+        · exact ha.endedFree u hm hne
+        · exact he hne
+      · intro u hu
+        rw [hth] at hu
+        rcases List.mem_or_eq_of_mem_set hu with hm | rfl
+        · exact ha.bracketed u hm
+        · rw [hf]; exact ha.bracketed t (List.mem_of_getElem? ht)
+
+theorem accounted_run {w : World σ R} (h : EvalPhase w) (ha : Accounted w) (sched : List Nat) :
+    Accounted (run w sched) := by
+  induction sched generalizing w with
+  | nil => exact ha
+  | cons i sched ih => exact ih (evalPhase_applyStep h i) (accounted_applyStep h ha i)
+
 end Dmn.ConcP
